@@ -1360,13 +1360,12 @@ def shortest_int(data: np.ndarray, percent: float=50) -> tuple[float, float]:
             The shortest interval containing 50% of the samples in 'data'.
         """
         diff_lag = (
-            lambda data, lag: data[lag:] - data[:-lag]
+            lambda data, lag: data[lag:] - data[:len(data)-lag]
         )  # Difference between two elements of an array separated by a distance 'lag'
 
         data = np.sort(data)
         lag = int(len(data) * percent/100)
         diff = diff_lag(data, lag)
         i = np.where(np.abs(diff - np.min(diff)) < 1e-10)[0]
-        if len(i) > 1:
-            i = int(np.mean(i))
+        i = i[len(i)//2]  # among tied minima take the central one (the mean index need not be a minimum)
         return np.array((data[i], data[i + lag]))
